@@ -53,7 +53,9 @@ def variants():
 
 def trace_variant(desc, tier):
     """With trace logging enabled: the same searches one level shallower."""
-    return {"depth": desc["depth"] - 1}
+    if desc.get("prelude"):
+        return False
+    return {"depth": desc["depth"] - (2 if desc["alpha"] == "full" and tier == "quick" else 1)}
 
 
 def tasks(tier, seed):
@@ -70,6 +72,12 @@ def tasks(tier, seed):
                     pass
                 ts.append(dict(v, alpha=alpha, depth=depth, first=first,
                                name="%s/%s/f%d/s%d/c%d/%d" % (v["api"], alpha, v["fire"], v["skip"], v["cf"], first)))
+        # the same configuration on a connection that went through the real connect() (options must survive it) and on a re-used object
+        for prelude in ("connected", "reused-midmessage"):
+            nfirst = len([s for s in alphabet(PAY_SMALL) if s[0] != R.CONT])
+            for first in range(nfirst):
+                ts.append(dict(v, alpha="small", depth=2 if tier == "quick" else 4, first=first, prelude=prelude,
+                               name="%s/%s/f%d/s%d/c%d/%d" % (v["api"], prelude, v["fire"], v["skip"], v["cf"], first)))
     return ts
 
 
@@ -104,11 +112,10 @@ class Harness:
         d = self.d
         lib.reset_globals()
         env.install_urandom("counter")
-        sock = env.ScriptSock(b"", at_end="timeout")
-        ws = env.make_ws(sock, fire_cont_frame=d["fire"], skip_utf8_validation=d["skip"])
+        ws, sock = env.prepared_ws(d.get("prelude", "fresh"), fire_cont_frame=d["fire"], skip_utf8_validation=d["skip"])
         seq = R.Sequencer()
         rea = R.Reassembler()
-        hist = []
+        hist = ["<%s>" % d["prelude"]] if d.get("prelude") else []
         api = d["api"]
         for step in range(d["depth"]):
             legal = [s for s in self.syms if seq.allows(s[1], s[0])]
